@@ -367,21 +367,22 @@ def CmpHs.pushBounds (c : CmpHs) (op : CmpOp) (w : WCB) : WCB × Bool :=
   CmpOp.all.reverse.foldl (init := (w, true)) fun (w, u) source =>
     if source.effectsTo op && u then w.pushBounds (c.get source.attr).bounds else (w, u)
 
+/-- the helper-attribute level of `push_bounds_to_raw` -/
+def HAttrs.pushHelper (h : HAttrs) (use : Bool) (kind : Kind) (w : WCB) : WCB × Bool :=
+  match kind with
+  | .cmp op => h.cmp.pushBounds op w
+  | .debug => w.pushBounds h.debug.bounds
+  | .dflt => (match h.dflt with | some a => w.pushBounds a.bounds | none => (w, use))
+  | _ => (w, use)
+
 /-- `push_bounds_to_raw` -/
 def HAttrs.pushBoundsToRaw (h : HAttrs) (use : Bool) (useHelper : Bool) (kind : Kind) (w : WCB) : WCB × Bool :=
-  let (w, use) :=
-    if use && useHelper then
-      match kind with
-      | .cmp op => h.cmp.pushBounds op w
-      | .debug => w.pushBounds h.debug.bounds
-      | .dflt => (match h.dflt with | some a => w.pushBounds a.bounds | none => (w, use))
-      | _ => (w, use)
-    else (w, use)
-  if use then
+  let r := if use && useHelper then h.pushHelper use kind w else (w, use)
+  if r.2 then
     match h.item? kind with
-    | some a => a.pushBoundsTo w
-    | none => (w, use)
-  else (w, use)
+    | some a => a.pushBoundsTo r.1
+    | none => r
+  else r
 
 def HAttrs.pushBoundsTo (h : HAttrs) (use : Bool) (kind : Kind) (w : WCB) : WCB × Bool :=
   h.pushBoundsToRaw use true kind w
